@@ -37,7 +37,7 @@ def predicted(paths_full, env: Dict[str, Any]) -> List[Tuple]:
     return out
 
 
-def dyn_env(name: str, value: Any, env: Dict[str, Any], class_ids: Optional[Dict[str, int]] = None):
+def dyn_env(name: str, value: Any, env: Dict[str, Any], class_ids: Optional[Dict[str, int]] = None, tuple_alts: Optional[List[Any]] = None):
     """Assignment of the symbols of a VDyn / typed parameter `name` for a concrete Python value."""
     if value is None:
         env[f"{name}.tag"] = 0
@@ -53,6 +53,24 @@ def dyn_env(name: str, value: Any, env: Dict[str, Any], class_ids: Optional[Dict
     elif isinstance(value, str):
         env[f"{name}.tag"] = 4
         env[f"{name}.s"] = value
+    elif isinstance(value, (tuple, list, dict)):
+        # containers: a tuple whose shape is one of the modelled ("tuple_of", [...]) alternatives gets that alternative's tag and
+        # component symbols; any other container is the opaque alternative of its kind
+        alt = None
+        if isinstance(value, tuple):
+            kinds = ["int" if isinstance(x, int) and not isinstance(x, bool) else "str" if isinstance(x, str) else "?" for x in value]
+            for a in tuple_alts or []:
+                if a[1] == kinds:
+                    alt = a
+        if alt is not None:
+            import zlib
+
+            env[f"{name}.tag"] = 1000 + zlib.crc32(repr(alt).encode()) % 100000
+            for i, x in enumerate(value):
+                env[f"{name}.{i}.i" if isinstance(x, int) else f"{name}.{i}.s"] = x
+        else:
+            env[f"{name}.tag"] = {tuple: 9, list: 7, dict: 8}[type(value)]
+            env[f"{name}.oid"] = id(value) % 100000
     else:
         cid = (class_ids or {}).get(type(value).__name__)
         env[f"{name}.tag"] = cid if cid is not None else 6
